@@ -144,11 +144,11 @@ theorem rampdownCall_lookup (infra : Infra K) (prev : String → Option (K × K)
         simp only [beq_iff_eq]
         intro hxk
         exact hnd.1 (List.mem_map.2 ⟨x, hx, hxk.trans hk.symm⟩)
-      rw [hnone, List.find?_cons_of_pos hb]
-      simp only
+      rw [hnone]
+      simp only [List.find?_cons, hb]
       rw [hF, if_pos hk.symm, hk]
     · have hb : (a.session == k) = false := by simpa using hk
-      rw [List.find?_cons_of_neg (by simpa using hk)]
+      simp only [List.find?_cons, hb]
       have hk' : ¬ k = a.session := fun e => hk e.symm
       rw [hF, if_neg hk']
       show (match t.find? (fun s => s.session == k) with
